@@ -133,6 +133,14 @@ impl Tour {
         let pos_seg_start = self.position_of(segment.start())?;
         let pos_seg_end = self.position_of(segment.end())?;
         self.check_if_sequence_is_removable(pos_seg_start, pos_seg_end)?;
+        if self.is_dummy && pos_seg_start <= pos_seg_end {
+            // dummy tours need not be paths (dropped maintenance nodes can leave unconnectable
+            // neighbors), but the removed nodes are handed on as a path
+            Path::new(
+                self.nodes[pos_seg_start..pos_seg_end + 1].to_vec(),
+                self.network.clone(),
+            )?;
+        }
 
         // compute useful_duration, service_distance, dead_head_distance, and costs for the new tour:
         let new_useful_duration = self.useful_duration
